@@ -58,8 +58,19 @@ def canon(lines):
     for l in lines:
         if region is not None:
             if l.startswith('{"e":"end"'):
-                # not compared: see above (with the inline Deferrer such closures can also form
-                # a reference cycle and never be released, which the documentation allows)
+                # Not compared as a sequence: see above (with the inline Deferrer such closures can also
+                # form a reference cycle and never be released, which the documentation allows).  What is
+                # compared is, per actor, the order of its own release events (value drop vs notifier),
+                # for the actors released in both builds.
+                per = {}
+                for x in region:
+                    if '"aid"' in x and (x.startswith('{"e":"vdrop"') or x.startswith('{"e":"notify"')):
+                        try:
+                            d = json.loads(x)
+                            per.setdefault(d["aid"], []).append(d["e"])
+                        except Exception:
+                            pass
+                out.append("REGION " + json.dumps(per, sort_keys=True))
                 out.append('{"e":"end"}')
                 region = None
             else:
@@ -136,6 +147,10 @@ def run(tier, seed, replay=None):
         div = None
         for i in range(n):
             if lines[i] != ref_lines[i]:
+                if lines[i].startswith("REGION ") and ref_lines[i].startswith("REGION "):
+                    pa, pb = json.loads(lines[i][7:]), json.loads(ref_lines[i][7:])
+                    if all(pa[k] == pb[k] for k in pa if k in pb):
+                        continue
                 div = i
                 break
         if div is None and len(lines) != len(ref_lines):
